@@ -6,8 +6,11 @@
                                      that ends in FilteredFlowWriter.add) returned; the flow's record ends at byte
                                      offset `to` (exclusive) of the file's byte stream
      [k |-> "hook",     name |-> hook name]                          a Save-addon hook that does not finish a flow returned
+                                     (open/resume carry spec |-> "literal" | "pattern": the kind of save_stream_file;
+                                      "tick": the clock moved so that a pattern spec names a new file)
      [k |-> "finished", s |-> state id, t |-> kind]                  a Save-addon hook that finishes the flow returned
-     [k |-> "disk",     ids, end, exc]        the stream file as it is ON DISK right now (independent open + read)
+     [k |-> "disk",     ids, end, exc]        the stream file(s) as they are ON DISK right now (independent open + read;
+                                              after a rotation: the files of the stream in the order they were opened)
      [k |-> "crash",    at |-> offset, part |-> class]   writing stopped: the file holds the first `at` bytes
      [k |-> "recover",  ids, end, exc]        the truncated file was loaded: states of the flows yielded, in order,
                                               and how the iteration ended ("clean" | "fre" | "other")
@@ -55,7 +58,7 @@ MonStep(m, ev) ==
   ELSE IF ev.k = "finished" THEN
      [m EXCEPT !.finished = Append(@, ev.s), !.fkinds = Append(@, ev.t), !.wit = @ \cup {"stream_finish"}]
   ELSE IF ev.k = "hook" THEN
-     [m EXCEPT !.wit = @ \cup {ev.name}]
+     [m EXCEPT !.wit = @ \cup {ev.name} \cup (IF "spec" \in DOMAIN ev THEN {ev.spec} ELSE {})]
   ELSE IF ev.k = "disk" THEN
      [m EXCEPT !.bad = DiskClause(m, ev),
                !.wit = @ \cup {"disk_check"} \cup (IF Len(m.finished) > 0 THEN {"disk_with_finished"} ELSE {})]
